@@ -95,7 +95,29 @@ def sensitivity(only=None):
     return bad
 
 
+def summary():
+    rows = []
+    for meta in sorted(glob.glob(os.path.join(D, "seeded", "S-*", "meta.json"))):
+        rows.append(json.load(open(meta)))
+    with open(os.path.join(D, "seeded", "SUMMARY.md"), "w") as f:
+        f.write("# Seeded changes and the checks that catch them\n\n"
+                "Outcomes are those of the last `bin/selftest sensitivity` run recorded in each `meta.json` (patch applied to "
+                "/repo with `git apply`, quick checks run, `git checkout -- .` afterwards).\n\n"
+                "| id | breaks | needs in order to manifest | quick checks run -> outcome (violation class) |\n|---|---|---|---|\n")
+        for m in rows:
+            res = m.get("last_sensitivity_run", {})
+            f.write("| %s | %s | %s | %s |\n" % (m["id"], m["property"], m["needs_to_manifest"],
+                    "; ".join("%s: %s%s" % (k, v["outcome"].lower(), (" (" + v["violation_class"] + ")") if v["violation_class"] else "")
+                              for k, v in sorted(res.items())) or "not run yet"))
+    missed = [m["id"] for m in rows if not any(v["outcome"] == "CAUGHT" for k, v in m.get("last_sensitivity_run", {}).items()
+                                               if k == m["property"])]
+    print("%d seeded changes, not caught by the check of their own property: %s" % (len(rows), missed or "none"))
+    return 1 if missed else 0
+
+
 if __name__ == "__main__":
+    if len(sys.argv) > 1 and sys.argv[1] == "summary":
+        sys.exit(summary())
     mode = sys.argv[1] if len(sys.argv) > 1 else "determinism"
     if mode == "determinism":
         props = sys.argv[2:] or ALL
